@@ -13,7 +13,8 @@ RULE = (
     "pairs and the other separators; class-level separator from {/,|,::,\\,-,space}; pathattr name/id; ignorecase; list of (start, path)). "
     "Per case: the absolute path of every node n and the relative path spelled from Walker.walk(m, n) for every ordered pair (m, n) "
     "(with random case flips under ignorecase), plus generated component sequences over {tree names, unknown names, '..', '.', ''} with "
-    "leading/trailing/double separators; every path is resolved in strict and in relaxed mode. Exhaustive part: all shapes <= 4 nodes x "
+    "leading/trailing/double separators; every path is resolved in strict and in relaxed mode (in half of the generated cases right after the same text "
+    "was used as a glob() pattern, which fills the class-level pattern cache). Exhaustive part: all shapes <= 4 nodes x "
     "all component sequences of length <= 3 over a 7-symbol alphabet. Non-trivial path = >= 2 effective components and it reaches a "
     "node other than the start or fails at a component other than the first; distinct_nontrivial counts cases containing such a path."
 )
@@ -59,6 +60,15 @@ def resolver(pathattr, ic, relax):
 def check_path(case, nodes, labels, start, path, acc):
     sep, pathattr, ic = case["sep"], case["pathattr"], case["ignorecase"]
     exp = rr.ref_get(start, path, sep, pathattr, ic)
+    if case.get("prime_glob"):
+        # the same text used as a glob pattern just before (any instance, same options): what glob() remembers about a
+        # pattern must not change what get() does with the same text as a literal path
+        for relax in (True, False):
+            try:
+                resolver(pathattr, ic, relax).glob(start, path)
+            except Exception:  # noqa: BLE001 - glob's own behaviour is C08's business
+                pass
+        acc.tag("paths_used_as_glob_pattern_first")
     strict = run_get(resolver(pathattr, ic, False), start, path)
     relaxed = run_get(resolver(pathattr, ic, True), start, path)
     ctx = "get(%s, %r) sep=%r pathattr=%s ignorecase=%s names=%s" % (labels.label(start), path, sep, pathattr, ic, case["names"])
@@ -214,7 +224,7 @@ def random_cases(draw):
             path = path + sep
         paths.append([draw(st.integers(0, size - 1)), path])
     muts = draw(strategies.tree_mutations(rename_values=st.sampled_from(texts)))
-    return {"shape": shape, "names": names, "sep": sep, "pathattr": pathattr, "ignorecase": ic, "roundtrip": unique, "flip": draw(st.integers(0, 65535)), "paths": paths, "mutations": muts}
+    return {"shape": shape, "names": names, "sep": sep, "pathattr": pathattr, "ignorecase": ic, "roundtrip": unique, "flip": draw(st.integers(0, 65535)), "paths": paths, "mutations": muts, "prime_glob": draw(st.booleans())}
 
 
 ENUM_COMPS = ["a", "b", "A", "..", ".", "", "zz"]
